@@ -234,7 +234,34 @@ def rule_args(repo, rule):
     byk = returns_by_kind(fe, struct, {"list": ("list",), "tuple": ("tuple",), "dict": ("dict",), "leaf": ("<leaf>",)})
     if byk["leaf"] and all(norm(e) == "%s(%s)" % (conv, struct) for _r, e in byk["leaf"]):
         final = [byk["leaf"][0][0]]
+    # a traversal that keeps its own stack / queue instead of recursing: which elements reach the converter, and in which order, is
+    # a property of that data structure's history - an invariant of a worklist loop, which this analysis does not establish.
+    # Reported as undecided (never as "not converted", which would be a statement about code we did not understand).
+    selfcalls = [c for c in ast.walk(fe.node) if isinstance(c, ast.Call) and norm(c.func) == "for_each_in"]
+    worklist = [w for w in ast.walk(fe.node) if isinstance(w, ast.While) and any(
+        isinstance(c, ast.Call) and isinstance(c.func, ast.Attribute) and c.func.attr in ("pop", "popleft") for c in ast.walk(w)) and any(
+        isinstance(c, ast.Call) and isinstance(c.func, ast.Attribute) and c.func.attr in ("append", "extend", "appendleft") for c in ast.walk(w))]
+    convcalls = [c for c in ast.walk(fe.node) if isinstance(c, ast.Call) and norm(c.func) == conv and len(c.args) == 1]
+    iterative = bool(worklist) and not selfcalls and bool(convcalls)
+    if iterative:
+        # one thing IS decided for a worklist: a queue consumed first-in-first-out (popleft / pop(0), children appended at the
+        # back) with the converter applied as items come off walks the structure level by level - a leaf that follows a container
+        # is converted before that container's elements, which is not the order of the arguments
+        for w in worklist:
+            fifo = {norm(c.func.value) for c in ast.walk(w) if isinstance(c, ast.Call) and isinstance(c.func, ast.Attribute)
+                    and (c.func.attr == "popleft" or (c.func.attr == "pop" and len(c.args) == 1 and norm(c.args[0]) == "0"))}
+            fed = {norm(c.func.value) for c in ast.walk(w) if isinstance(c, ast.Call) and isinstance(c.func, ast.Attribute)
+                   and c.func.attr in ("append", "extend")}
+            conv_in = [c for c in convcalls if any(c is x for x in ast.walk(w))]
+            if fifo & fed and conv_in:
+                rule.violation(fe.loc(conv_in[0]), fe.fq, "queue `%s`: taken from the front, children appended at the back" % sorted(fifo & fed)[0],
+                               "breadth-first traversal: leaves are converted level by level, so the public values are not allocated "
+                               "in the order of the (nested) arguments", "for_each_in/order")
     for typ in ("list", "tuple", "dict"):
+        if iterative:
+            rule.undecided(fe.loc(worklist[0]), fe.fq, "%s: worklist loop `while %s`" % (typ, norm(worklist[0].test)[:40]),
+                           "iterative traversal with its own stack: coverage and order of the elements of a %s are not decided here" % typ)
+            continue
         iff = handled.get(typ)
         vals = byk.get(typ) or []
         where = fe.loc(vals[0][0]) if vals else (fe.loc(iff) if iff else fe.loc())
@@ -256,6 +283,8 @@ def rule_args(repo, rule):
                            "for_each_in/%s/shape" % typ)
     if final and isinstance(final[0], ast.Return) and norm(final[0].value) == "%s(%s)" % (conv, struct):
         rule.ok(fe.loc(final[0]), fe.fq, norm(final[0]), "every leaf goes through the converter")
+    elif iterative:
+        rule.undecided(fe.loc(convcalls[0]), fe.fq, norm(convcalls[0])[:60], "leaves of the worklist traversal: not decided here")
     else:
         rule.violation(fe.loc(), fe.fq, norm(final)[:80] if final else "", "leaves are not passed to the converter", "for_each_in/leaf")
     sn = repo.fn(RT, "snark.snark__")
